@@ -122,7 +122,7 @@ func (x *Exec) checkFrame(st *State, fr *Frame, c *Contract, at string) {
 		return // no frame claimed
 	}
 	for _, l := range c.Modifies {
-		if l == "*" {
+		if l == "*" || l == "heap" {
 			return
 		}
 	}
@@ -137,7 +137,7 @@ func (x *Exec) checkFrame(st *State, fr *Frame, c *Contract, at string) {
 	env := x.exitEnv(st, fr, c)
 	env.inOld = true
 	for _, loc := range c.Modifies {
-		if _, isGhost := x.ghostSort(loc); isGhost {
+		if _, isGhost := x.ghostSort(loc); isGhost || loc == "heap" {
 			continue
 		}
 		if i := strings.Index(loc, "["); i >= 0 {
